@@ -32,13 +32,16 @@ type E2ECase struct {
 	PrimeGET  bool      `json:"prime_get"` // for non-GET methods: a storable GET of the same path is stored first
 	Location  bool      `json:"location"`
 	Runtime   bool      `json:"policy_set_at_runtime,omitempty"`
-	Via416    bool      `json:"via_416"` // GET only: the first request carries a Range that the origin answers with 416 and the opposite freshness headers; the proxy's retry gets the scripted answer
+	// StoredEarlier: before the three requests the operator had directives ignored for a while (run-time switch on,
+	// one GET that stores the answer whatever it says, switch off again): the entry from that period is still there
+	StoredEarlier bool `json:"stored_while_directives_were_ignored,omitempty"`
+	Via416        bool `json:"via_416"` // GET only: the first request carries a Range that the origin answers with 416 and the opposite freshness headers; the proxy's retry gets the scripted answer
 }
 
 func noBody(st int) bool { return st == 204 || st == 205 || st == 304 }
 
 var subE2E = ev.Register("storable-e2e",
-	"three sequential requests for one resource (method x origin status x freshness header set x cache_policy x backend x transport; unrelated and other-method traffic before the third) against an origin whose body version increases with every request it serves; oracle: MUST-NOT-REUSE (non-GET, non-200, forbidding directive, max-age=0, expired) => every request reaches the origin and carries the version produced for it; MUST-REUSE (GET 200 storable with a lifetime >= 5 s) => requests 2 and 3 never reach the origin, are labelled HIT and carry request 1's body; non-trivial = verdict is not EITHER and the header set is not in the repository's tests; distinct by (method,status,header set,flags,backend)",
+	"three sequential requests for one resource (method x origin status x freshness header set x cache_policy x backend x transport; unrelated and other-method traffic before the third; optionally an entry for the resource was stored earlier, during a period in which the operator had directives ignored) against an origin whose body version increases with every request it serves; oracle: MUST-NOT-REUSE (non-GET, non-200, forbidding directive, max-age=0, expired) => every request reaches the origin and carries the version produced for it; MUST-REUSE (GET 200 storable with a lifetime >= 5 s) => requests 2 and 3 never reach the origin, are labelled HIT and carry request 1's body; non-trivial = verdict is not EITHER and the header set is not in the repository's tests; distinct by (method,status,header set,flags,backend)",
 	func(c E2ECase, o *ev.Obs) *ev.Failure {
 		var mu sync.Mutex
 		ver := 0
@@ -112,6 +115,26 @@ var subE2E = ev.Register("storable-e2e",
 				return ev.Failf("store-e2e.harness", "policy update refused: %v", err)
 			}
 			time.Sleep(5 * time.Millisecond)
+		}
+
+		setPolicy := func(ignore, force bool) *ev.Failure {
+			if _, err := config.UpdatePartialFromConfig(env.Cfg, map[string]any{"proxy": map[string]any{"cache_policy": map[string]any{"ignore_cache_control": ignore, "force_default_max_age": force}}}); err != nil {
+				return ev.Failf("store-e2e.harness", "policy update refused: %v", err)
+			}
+			time.Sleep(5 * time.Millisecond)
+			return nil
+		}
+		if c.StoredEarlier {
+			o.Class("entry-from-a-period-of-ignored-directives")
+			if f := setPolicy(true, c.Force); f != nil {
+				return f
+			}
+			if _, err := env.Via(c.Transport, px.Req{Method: "GET", Host: org.Addr(), Target: "/r", ReqID: "earlier"}); err != nil {
+				return ev.Failf("store-e2e.harness", "earlier GET: %v", err)
+			}
+			if f := setPolicy(c.Ignore, c.Force); f != nil {
+				return f
+			}
 		}
 
 		now := time.Now()
@@ -204,6 +227,10 @@ var subE2E = ev.Register("storable-e2e",
 			hasBody := c.Method != "HEAD" && !noBody(c.Status)
 			switch {
 			case verdict == "must-not-reuse":
+				if len(entries) == 0 && c.StoredEarlier {
+					return ev.Failf("store-e2e.reused:entry-from-ignore-period:"+reason, "%s %s (origin status %d, Cache-Control %q, Expires %q, ignore=%v now): answered from the entry stored while directives were ignored, without contacting the origin (X-Cache %q)",
+						id, c.Method, c.Status, c.Fresh.CC, c.Fresh.Expires, c.Ignore, resp.Header.Get("X-Cache"))
+				}
 				if len(entries) == 0 {
 					return ev.Failf("store-e2e.reused:"+reason, "%s %s (origin status %d, Cache-Control %q, Expires %q, ignore=%v force=%v): answered without contacting the origin (X-Cache %q)",
 						id, c.Method, c.Status, c.Fresh.CC, c.Fresh.Expires, c.Ignore, c.Force, resp.Header.Get("X-Cache"))
@@ -233,10 +260,10 @@ var subE2E = ev.Register("storable-e2e",
 			}
 			if i == 1 {
 				first = resp.Body
-				if len(entries) == 0 {
+				if len(entries) == 0 && !c.StoredEarlier {
 					return ev.Failf("store-e2e.first-not-forwarded", "the first request never reached the origin")
 				}
-				if hasBody && !bodyOfAny(resp.Body, entries, c.BodyLen) {
+				if hasBody && len(entries) > 0 && !bodyOfAny(resp.Body, entries, c.BodyLen) {
 					return ev.Failf("store-e2e.wrong-version:first", "r1: body is not a version produced for it")
 				}
 			}
@@ -280,6 +307,13 @@ func drawE2E(t *rapid.T) E2ECase {
 		// keep the simplest storable shapes well represented
 		c.Fresh = rapid.SampledFrom([]gen.Fresh{{}, {CC: []string{"max-age=60"}}, {CC: []string{"public, max-age=3600"}}, {CC: []string{"Max-Age=60"}},
 			{CC: []string{"public"}, Expires: nil}, {CC: []string{"public", "max-age=100"}}}).Draw(t, "simple-fresh")
+	}
+	if !c.Ignore && c.Method == "GET" && c.Status == 200 && !c.Via416 && rapid.IntRange(0, 5).Draw(t, "stored-earlier") == 0 {
+		c.StoredEarlier = true
+		// make the forbidding directives frequent here: they are what the earlier period overrode
+		if rapid.Bool().Draw(t, "earlier-forbidding") {
+			c.Fresh = rapid.SampledFrom([]gen.Fresh{{CC: []string{"no-store"}}, {CC: []string{"private, max-age=600"}}, {CC: []string{"no-cache"}}, {CC: []string{"max-age=0"}}, {CC: []string{"No-Store, max-age=60"}}}).Draw(t, "earlier-fresh")
+		}
 	}
 	return c
 }
